@@ -3,6 +3,7 @@ package dbms
 import (
 	"crypto/sha1"
 
+	"github.com/apmckinlay/gsuneido/core"
 	"github.com/apmckinlay/gsuneido/dbms/commands"
 	rt "github.com/apmckinlay/gsuneido/zzverifrt"
 )
@@ -88,4 +89,78 @@ func VerifC41AuthAttempts() {
 		rt.Reach("forged-token-attempted")
 		rt.Assert("attempt/forged-token-rejected", c.unauth())
 	}
+}
+
+// vusers is the database the server thread looks users up in: exactly one user "u" whose stored
+// password hash is "ph" (everything else of IDbms is unused by AuthUser)
+type vusers struct {
+	core.IDbms
+}
+
+func (d *vusers) Unwrap() core.IDbms { return d }
+
+func (d *vusers) Get(th *core.Thread, query core.Value, dir core.Dir) (core.Row, *core.Header, string) {
+	user := core.ToStr(query.(*core.SuObject).Get(th, core.SuStr("user")))
+	if user != "u" {
+		return nil, nil, ""
+	}
+	var rb core.RecordBuilder
+	rb.Add(core.SuStr("u"))
+	rb.Add(core.SuStr("ph"))
+	return core.Row{core.DbRec{Record: rb.Build()}}, core.SimpleHeader([]string{"user", "passhash"}), "users"
+}
+
+// C41 with an existing user ("u", password hash "ph"): authentication succeeds with
+// u NUL sha1(nonce + hash) over the nonce just issued to this connection - and only then: a
+// proper prefix of that string, the right string without a nonce having been requested, and the
+// right string over a nonce that was already used for a failed attempt are all refused.
+//
+//symgo:harness prop=C41 tier=quick shards=4 timeout=400 bounds=1_user;5_scripted_request_sequences;arbitrary_prefix_length_1..22_and_arbitrary_wrong_hash_bytes
+func VerifC41ValidUser() {
+	c, _ := vsetup()
+	c.th.SetDbms(&vusers{})
+	auth := func(s []byte) {
+		c.request(append([]byte{byte(commands.Auth), byte(2 * len(s))}, s...))
+	}
+	nonce := func() string {
+		resp := c.request([]byte{byte(commands.Nonce)})
+		rt.Assume(len(resp) == 2+nonceSize && resp[0] == 1)
+		return string(resp[2:])
+	}
+	right := func(n string) []byte {
+		h := sha1.Sum([]byte(n + "ph"))
+		return append([]byte("u\x00"), h[:]...)
+	}
+	switch rt.Pick("script", 5) {
+	case 0:
+		auth(right(nonce()))
+		rt.Assert("user/valid-login-accepted", !c.unauth())
+	case 1:
+		s := right(nonce())
+		n := 1 + rt.Pick("prefix", len(s)-1) // a proper prefix
+		auth(s[:n])
+		rt.Assert("user/prefix-of-the-proof-refused", c.unauth())
+	case 2:
+		n := nonce()
+		wrong := append([]byte("u\x00"), rt.Bytes("wrong", 20)...)
+		h := sha1.Sum([]byte(n + "ph"))
+		same := true
+		for i := range h {
+			same = rt.And(same, wrong[2+i] == h[i])
+		}
+		rt.Assume(!same)
+		auth(wrong)
+		rt.Assert("user/wrong-proof-refused", c.unauth())
+		auth(right(n)) // the nonce was consumed by the failed attempt
+		rt.Assert("user/nonce-is-single-use", c.unauth())
+	case 3:
+		auth(right("")) // no nonce was ever requested
+		rt.Assert("user/no-nonce-refused", c.unauth())
+	case 4:
+		n := nonce()
+		nonce() // a second nonce replaces the first
+		auth(right(n))
+		rt.Assert("user/stale-nonce-refused", c.unauth())
+	}
+	rt.Reach("done")
 }
